@@ -271,6 +271,11 @@ func (b *Box) Send(msgType uint8, topic []byte, msg []byte, to ...UniversalID) {
 		}
 	}()
 
+	if msgs != nil {
+		for _, sender := range msgs.senders() {
+			delete(b.totalInFlightTopicsBySender[sender], string(topic))
+		}
+	}
 	delete(b.pendingMessages, string(topic))
 
 	b.lock.Unlock()
